@@ -377,14 +377,14 @@ func ruleX7(c *Ctx) {
 				}
 				c.check(good, key, st.Pos(), "0 or the decoder's size for input[pos:]", "width is set to "+truncate(c.term(st.Val), 70)+", not to the size utf8.DecodeRuneInString reported for input[pos:]: after an invalid byte the lexer skips or overruns input")
 			case "pos":
-				if fn.Name() != "next" && fn.Name() != "backup" {
+				if fnName(fn) != "next" && fnName(fn) != "backup" {
 					return
 				}
 				np++
 				key := funcName(fn) + " moves pos by width"
 				bo, isBo := st.Val.(*ssa.BinOp)
 				wantOp := token.ADD
-				if fn.Name() == "backup" {
+				if fnName(fn) == "backup" {
 					wantOp = token.SUB
 				}
 				good := isBo && bo.Op == wantOp && loadOf(bo.X, "pos") && loadOf(bo.Y, "width")
@@ -416,7 +416,7 @@ func ruleX8(c *Ctx) {
 			break
 		}
 		f, ok := v.(*ssa.Function)
-		return ok && f.Name() == "lexPredicate"
+		return ok && fnName(f) == "lexPredicate"
 	}
 	guarded := func(b *ssa.BasicBlock) bool {
 		for _, ft := range fi.factsAt(b) {
@@ -894,6 +894,13 @@ func ruleS3c(c *Ctx, rels ...string) {
 				if isBuiltinCall(&x.Call, "delete") {
 					g = globalOf(x.Call.Args[0])
 				}
+				// a process-wide sync.Map used as a cache
+				if f := x.Call.StaticCallee(); f != nil && f.Signature.Recv() != nil && isNamed(f.Signature.Recv().Type(), "sync", "Map") && len(x.Call.Args) > 0 {
+					switch f.Name() {
+					case "Store", "LoadOrStore", "LoadAndDelete", "Delete", "Swap", "CompareAndSwap", "CompareAndDelete", "Clear":
+						g = globalOf(x.Call.Args[0])
+					}
+				}
 			}
 			if g == nil || g.Pkg == nil || !strings.HasPrefix(g.Pkg.Pkg.Path(), modPath) {
 				return
@@ -912,5 +919,73 @@ func ruleS3c(c *Ctx, rels ...string) {
 	}
 	if n == 0 {
 		c.trivial("writes to package-level variables", token.NoPos, "none outside initialisation in %v", rels)
+	}
+}
+
+// ---- FS1 data never becomes a format string ---------------------------------------------------------------------------------
+
+func ruleFS1(c *Ctx, rels ...string) {
+	c.Rule("FS1", "no value is interpreted as a format: the format argument of every fmt.Sprintf/Fprintf/Printf/Errorf/Sscanf-style call in the engine is built from constants only (a constant, or constants joined by +); a format that contains a node, predicate, literal or any other run-time text turns every % in that text into a verb, so the printed form no longer parses back", 0)
+	fmtIdx := map[string]int{"Sprintf": 0, "Errorf": 0, "Printf": 0, "Fprintf": 1, "Sscanf": 1, "Fscanf": 1, "Appendf": 1}
+	n := 0
+	var constOnly func(v ssa.Value, d int) bool
+	constOnly = func(v ssa.Value, d int) bool {
+		if d > 6 {
+			return false
+		}
+		switch x := resolveParam(v).(type) {
+		case *ssa.Const:
+			return true
+		case *ssa.BinOp:
+			return x.Op == token.ADD && constOnly(x.X, d+1) && constOnly(x.Y, d+1)
+		case *ssa.Phi:
+			for _, e := range x.Edges {
+				if !constOnly(e, d+1) {
+					return false
+				}
+			}
+			return true
+		}
+		return false
+	}
+	for _, fn := range c.srcFuncs(rels...) {
+		allInstrs(fn, func(in ssa.Instruction) {
+			cc := callCommon(in)
+			if cc == nil || cc.StaticCallee() == nil || cc.StaticCallee().Pkg == nil || cc.StaticCallee().Pkg.Pkg.Path() != "fmt" {
+				return
+			}
+			idx, ok := fmtIdx[cc.StaticCallee().Name()]
+			if !ok || idx >= len(cc.Args) {
+				return
+			}
+			n++
+			if constOnly(cc.Args[idx], 0) {
+				return
+			}
+			// a parameter of an unexported helper: judged at its call sites
+			if p, isParam := cc.Args[idx].(*ssa.Parameter); isParam && !token.IsExported(fn.Name()) && fn.Parent() == nil {
+				okAll := len(c.callSites().sites[fn]) > 0 && !c.callSites().escapes[fn]
+				pi := -1
+				for i, q := range fn.Params {
+					if q == p {
+						pi = i
+					}
+				}
+				for _, site := range c.callSites().sites[fn] {
+					if sc := callCommon(site); sc == nil || pi < 0 || pi >= len(sc.Args) || !constOnly(sc.Args[pi], 0) {
+						okAll = false
+					}
+				}
+				if okAll {
+					return
+				}
+			}
+			c.bad(fmt.Sprintf("%s format of fmt.%s", funcName(fn), cc.StaticCallee().Name()), in.Pos(), "the format string of fmt.%s at %s is %s, which contains run-time text: a %% in that text is read as a verb (\"%%!\"(MISSING)…), so what is printed is not what the parser reads back", cc.StaticCallee().Name(), c.pos(in.Pos()), truncate(c.term(cc.Args[idx]), 80))
+		})
+	}
+	if n == 0 {
+		c.trivial("format strings", token.NoPos, "no fmt formatting call in %v", rels)
+	} else {
+		c.ok("format strings are constants", token.NoPos, "%d formatting calls, every format built from constants only", n)
 	}
 }
